@@ -6,9 +6,9 @@ CONSTANTS
   D = 0
   MaxEvents = 4
   MaxFails = 0
-  Extra = "none"
-  Backoff = FALSE
-  Closed = TRUE
+  Extra = "start"
+  Backoff = TRUE
+  Closed = FALSE
   ObserveCb = FALSE
   TrackQuiet = FALSE
   UnitMs = 1000
